@@ -204,7 +204,8 @@ def selftest(pid, wd, tpath):
 
 
 def run_check(pid, tier, seed, mc_cfgs, profiles, thorough_profiles, assumptions, mc_types=("static",),
-              mc_actions=("MAdd", "MSendCS", "MSendRAA", "MDeliver"), mc_module="ChanMC", mutant_cfgs=()):
+              mc_actions=("MAdd", "MSendCS", "MSendRAA", "MDeliver"), mc_module="ChanMC", mutant_cfgs=(),
+              families=(), thorough_families=()):
     t0 = time.time()
     wd = vlib.workdir(pid)
     bins = vlib.build(["channet"])
@@ -244,6 +245,15 @@ def run_check(pid, tier, seed, mc_cfgs, profiles, thorough_profiles, assumptions
     batches = [("tlc", ["--scripts", spath], 2)] if conv else []
     for name, nodes, runs in (thorough_profiles if thorough else profiles):
         batches.append((name + str(nodes), ["--random", runs, "--nodes", nodes, "--profile", name], nodes))
+    # structured schedules (checks/fwd_scripts.py): a fixed skeleton around a narrow window, the rest random
+    import fwd_scripts
+    for fam, count in (thorough_families if thorough else families):
+        fpath = os.path.join(wd, "scripts-%s.ndjson" % fam)
+        made = fwd_scripts.make(rng, fam, count)
+        with open(fpath, "w") as f:
+            for s_ in made:
+                f.write(json.dumps(s_) + "\n")
+        batches.append((fam, ["--scripts", fpath], made[0]["cfg"]["nodes"]))
     nviol, total_events, total_runs, executed, skipped, panics = 0, 0, 0, 0, 0, 0
     first_trace = None
     for bi, (bname, args, nodes) in enumerate(batches):
